@@ -1,9 +1,9 @@
 (* Props/C04.v — property C04: parse_cdc is total: a circuit or a parsing error, never a crash.
-   Only statements; proofs are [exact <lemma>] into Circuit/Token_facts.v and Circuit/Parser_facts.v.
+   Only statements; proofs are [exact <lemma>] into Circuit/Token_facts.v, Circuit/Parser_facts.v and Circuit/Parser_fuel.v.
    [tokenize] models tokenizer.py character by character, [parse] models Parser.process/parse_cdc. *)
 From Coq Require Import ZArith QArith Bool List.
 From PV Require Import Base.Num Base.Outcome Circuit.ElemState Circuit.Tree Circuit.Token Circuit.Token_facts
-                       Circuit.Parser Circuit.Parser_facts.
+                       Circuit.Parser Circuit.Parser_facts Circuit.Parser_fuel.
 From PV Require Import gen.Classes_gen.
 Import ListNotations.
 
@@ -15,16 +15,14 @@ Proof. exact tokenize_total. Qed.
 Print Assumptions C04_tokenize_total.
 
 (* For EVERY string and every well-formed registry, parsing returns a circuit or one of the allowed errors
-   (a ParsingError subclass, a tokenizing error, a ValueError): no TypeError, KeyError, IndexError ... on any path.
-   FULL statement wanted:   ... | Crash _ => False.
-   Proved here (hence _partial): the only crash left is exhaustion of the model's own recursion fuel
-   (4*tokens+10); that the fuel suffices is not proved — it is exercised by the correspondence run, where the
-   model never returned COutOfFuel on any generated string. *)
-Theorem C04_parse_total_partial :
+   (a ParsingError subclass, a tokenizing error, a ValueError): no TypeError, KeyError, IndexError ... on any path, and the model's
+   own recursion fuel (4*tokens+10) is never exhausted: every call consumes a token within a bounded number of frames and every
+   loop iteration consumes at least one token (Circuit/Parser_fuel.v). *)
+Theorem C04_parse_total :
   forall reg s, wf_registry reg = true ->
-  match parse reg s with Ok _ => True | Err e => okerr e = true | Crash c => c = COutOfFuel end.
-Proof. exact parse_good. Qed.
-Print Assumptions C04_parse_total_partial.
+  match parse reg s with Ok _ => True | Err e => okerr e = true | Crash _ => False end.
+Proof. exact parse_total. Qed.
+Print Assumptions C04_parse_total.
 
 (* the hypothesis holds for the registry of /repo as it is now (table regenerated on every run) *)
 Theorem C04_builtin_registry_wf : wf_registry builtin_registry = true.
